@@ -53,6 +53,7 @@ def havoc(I, node, fr, lc):
         body.append(node.test)
     names, attrs, containers = assigned_targets(I, body, fr)
     decl = (lc or {}).get("vars") or {}
+    touched = set()     # heap locations (ref, field) given fresh values here
     for n in sorted(names):
         if n in decl:
             fr.locals[n] = I.fresh_of_type(decl[n], n)
@@ -70,6 +71,7 @@ def havoc(I, node, fr, lc):
             if (base.ref, name) in done:
                 continue
             done.add((base.ref, name))
+            touched.add((base.ref, name))
             o = st.heap[base.ref]
             ty = I.E.field_type(o.cls, name)
             if ty is not None:
@@ -85,9 +87,11 @@ def havoc(I, node, fr, lc):
             continue
         if isinstance(base, VRef):
             o = st.heap[base.ref]
+            touched.add((base.ref, "<data>"))
             if o.kind == "slist":
                 o.data = VSeq(I.fresh_of_type("bytes", "lst").segs, "list")
             elif o.kind == "bytesio":
+                touched.update([(base.ref, "buf"), (base.ref, "pos")])
                 o.fields["buf"] = I.fresh_of_type("bytes", "bio.buf")
                 p = I.fresh_of_type("nat", "bio.pos")
                 o.fields["pos"] = p
@@ -105,10 +109,12 @@ def havoc(I, node, fr, lc):
         base = I.eval(ast.parse(fld.rsplit(".", 1)[0], mode="eval").body, fr)
         name = fld.rsplit(".", 1)[1]
         o = st.heap[base.ref]
+        touched.add((base.ref, name))
         ty = I.E.field_type(o.cls, name)
         if name not in o.init:
             o.init[name] = I.fresh_of_type(ty, "%s.%s" % (I.obj_hint(base), name))
         o.fields[name] = I.fresh_of_type(ty, "%s.%s" % (I.obj_hint(base), name))
+    return touched
 
 
 def snapshot_entry(I, node, fr, label):
@@ -131,6 +137,56 @@ def assume_invs(I, lc, fr, extra_env=None):
     for inv in lc.get("inv", []):
         t = I.E.eval_spec(I, inv, fr, extra_env or {})
         I.st.assume(zbool(I.truthy(t)))
+
+
+def ghost_snapshot(I):
+    """ghost state and heap at the loop head (after the havoc), for the frame obligations below"""
+    gs = {g: v for g, v in I.st.ghost.items() if isinstance(g, str) and g in I.E.ghost_types}
+    hs = {}
+    for r, o in I.st.heap.items():
+        if o.kind in ("obj", "bytesio"):
+            hs[r] = dict(o.fields)
+        elif o.kind == "slist":
+            hs[r] = {"<data>": o.data}
+    return gs, hs
+
+
+def check_ghost_frame(I, lc, fr, snap):
+    """the cut is only inductive if everything the arbitrary iteration changes was havocked at the loop head:
+    a ghost that is not listed in havoc_ghosts must come out of the iteration as it went in"""
+    st = I.st
+    snap, heap_snap = snap
+    touched = lc.get("_touched") or set()
+    for r in sorted(heap_snap):
+        o = st.heap.get(r)
+        if o is None:
+            continue
+        now = {"<data>": o.data} if o.kind == "slist" else o.fields
+        for name in sorted(now):
+            if (r, name) in touched:
+                continue
+            cur = now[name]
+            before = heap_snap[r].get(name, o.init.get(name) if o.kind == "obj" else None)
+            if cur is before or before is None:
+                continue
+            try:
+                same = I.equal(cur, before)
+            except Unsupported:
+                same = False
+            st.oblige("%s::loop-frame::%s.field(%s.%s)" % (fr.finfo.qualname, lc["_label"], o.cls if o.kind == "obj" else o.kind, name), same)
+    listed = set(lc.get("havoc_ghosts", []))
+    for g in sorted(k for k in st.ghost if isinstance(k, str) and k in I.E.ghost_types):
+        if g in listed:
+            continue
+        cur = st.ghost[g]
+        before = snap.get(g, st.ghost_init.get(g))
+        if cur is before or before is None:
+            continue
+        try:
+            same = I.equal(cur, before)
+        except Unsupported:
+            same = False
+        st.oblige("%s::loop-frame::%s.ghost(%s)" % (fr.finfo.qualname, lc["_label"], g), same)
 
 
 def eval_variant(I, lc, fr, extra_env=None):
@@ -169,8 +225,9 @@ def exec_while(I, node, fr):
     lc["_label"] = label
     snapshot_entry(I, node, fr, label)
     check_invs(I, lc, fr, "loop-entry")
-    havoc(I, node, fr, lc)
+    lc["_touched"] = havoc(I, node, fr, lc)
     assume_invs(I, lc, fr)
+    gsnap = ghost_snapshot(I)
     c = I.eval(node.test, fr)
     if not st.decide(I.truthy(c)):
         I.exec_block(node.orelse, fr)
@@ -189,6 +246,7 @@ def exec_while(I, node, fr):
         # progress: an iteration that starts in the exit condition must leave the loop (return / raise / break)
         st.oblige("%s::loop-exit-when::%s" % (fr.finfo.qualname, label), z3.Not(ex0))
     check_invs(I, lc, fr, "loop-preserve")
+    check_ghost_frame(I, lc, fr, gsnap)
     if v0 is not None:
         v1 = eval_variant(I, lc, fr)
         st.oblige("%s::variant::%s" % (fr.finfo.qualname, label), z3.And(v0 >= 0, v1 < v0))
@@ -239,11 +297,12 @@ def exec_for(I, node, fr):
     idxname = "_idx%d" % k
     fr.locals[idxname] = VInt(0)
     check_invs(I, lc, fr, "loop-entry")
-    havoc(I, node, fr, lc)
+    lc["_touched"] = havoc(I, node, fr, lc)
     idx = st.fresh_int(idxname)
     st.assume(z3.And(idx >= 0, idx <= zint(total)))
     fr.locals[idxname] = VInt(idx)
     assume_invs(I, lc, fr)
+    gsnap = ghost_snapshot(I)
     if not st.decide(idx < zint(total)):
         I.exec_block(node.orelse, fr)
         return
@@ -257,6 +316,7 @@ def exec_for(I, node, fr):
     except ContinueSig:
         pass
     check_invs(I, lc, fr, "loop-preserve")
+    check_ghost_frame(I, lc, fr, gsnap)
     raise PathEnd()
 
 
